@@ -61,7 +61,7 @@ static int do_call(YR_SCANNER* sc, RUN* r, OP* op, INPUT* ins, int is_start)
   return rc;
 }
 
-// --describe: <id> rs=<hex>  ->  <id> nrules=<n> nstrings=<n> noreq=<bit per rule>
+// --describe: <id> rs=<hex>  ->  <id> nrules=<n> nstrings=<n> noreq=<bit per rule> fixed=<offset or - per string>
 static int describe(void)
 {
   char* line = NULL; size_t cap = 0; static char* toks[8];
@@ -73,6 +73,12 @@ static int describe(void)
     YR_RULES* rules = get_rules(field(toks, n, "rs"));
     printf("%s nrules=%u nstrings=%u noreq=", toks[0], rules->num_rules, rules->num_strings);
     for (uint32_t i = 0; i < rules->num_rules; i++) putchar(yr_bitmask_is_set(rules->no_required_strings, i) ? '1' : '0');
+    printf(" fixed=");
+    for (uint32_t i = 0; i < rules->num_strings; i++)
+    {
+      YR_STRING* st = &rules->strings_table[i];
+      if (STRING_IS_FIXED_OFFSET(st)) printf("%s%" PRId64, i ? "," : "", st->fixed_offset); else printf("%s-", i ? "," : "");
+    }
     printf("\n");
   }
   free_rules_cache(); yr_finalize(); free(line);
